@@ -64,7 +64,17 @@ type c12case struct {
 	// while the call is made, another goroutine's record on the SAME logger sits inside a destination that does not
 	// return (the Panic / Fatal record itself goes to another, healthy destination of that logger)
 	BusyLogger bool `json:"another_record_of_the_logger_is_inside_a_blocked_write,omitempty"`
+	// where the logger's error device leads: "" = an unbuffered file of the harness; "file-writer" = a log file made by
+	// slog.NewFileWriter (the record is there when the process is gone); "dead-first" = two destinations, the first of
+	// which reports an error for every write (a closed stderr, a dead sink) - the record reaches the other one;
+	// "discard" = io.Discard; "none" = the only destination was removed again. The termination rule is the same.
+	Dest string `json:"error_device,omitempty"`
 }
+
+// deadW takes nothing and says so.
+type deadW struct{}
+
+func (deadW) Write(p []byte) (int, error) { return 0, errors.New("write: broken pipe (injected)") }
 
 // failAfterStore writes the payload through and reports an error all the same.
 // blockingW signals that a Write has begun and never returns from it.
@@ -218,6 +228,17 @@ func c12enumerate() []c12case {
 			out = append(out, x)
 		}
 	}
+	// where the error device leads: two of the four variants per cell, rotating (both parities see all four)
+	d := 0
+	for _, b := range base {
+		if b.Format == "logfmt" && b.Admit {
+			dests := []string{"file-writer", "dead-first", "discard", "none"}
+			x, y := b, b
+			x.Dest, y.Dest = dests[(d/2+d)%4], dests[(d/2+d+2)%4]
+			out = append(out, x, y)
+			d++
+		}
+	}
 	return out
 }
 
@@ -303,6 +324,19 @@ func c12exec(c *Ctx, out string) {
 	lg.SetWriter(f).SetErrorWriter(f)
 	if cs.FailingWriter {
 		lg.SetWriter(failAfterStore{f}).SetErrorWriter(failAfterStore{f})
+	}
+	switch cs.Dest {
+	case "file-writer":
+		fw := slog.NewFileWriter(out + ".rec") // the same (still empty) file, opened by the library
+		lg.SetWriter(fw).SetErrorWriter(fw)
+	case "dead-first":
+		lg.SetWriter(deadW{}).SetErrorWriter(deadW{})
+		lg.AddWriter(f).AddErrorWriter(f)
+	case "discard":
+		lg.SetErrorWriter(io.Discard)
+	case "none":
+		lg.SetErrorWriter(f)
+		lg.RemoveErrorWriter(f)
 	}
 	if cs.NilCtxKeys {
 		lg.SetContextKeys("rid", "uid")
@@ -509,8 +543,13 @@ func c12matrix(c *Ctx) {
 			c.R.Violation(idx, clause, "C12/"+clause+"/"+sigTail, detail+fmt.Sprintf(" [exit %d, record %q, result %+v]", exit, clip(string(rec), 200), res), desc)
 		}
 		c.R.Distinct("exit_codes", fmt.Sprint(exit))
+		c.R.Distinct("error_devices", cs.Dest)
+		// no destination to look at: the termination rule is all there is to judge
+		noDest := cs.Dest == "discard" || cs.Dest == "none"
 		switch {
-		case cs.Admit && !whole:
+		case noDest && len(rec) != 0:
+			fail("record-first", "the Panic / Fatal record went to the normal destination although the error device leads elsewhere")
+		case cs.Admit && !whole && !noDest:
 			fail("record-first", "admitted call: the destination does not hold exactly one complete record")
 		case !cs.Admit && len(rec) != 0:
 			fail("not-admitted-writes", "call not admitted but the destination was written to")
